@@ -1063,6 +1063,10 @@ class Interp(object):
                 self.ctx.setcell(a, r)
                 return a
             return self.ctx.alloc(r)
+        if isinstance(op, ast.BitOr) and not inplace and ((isinstance(ca, NSet) and isinstance(cb, GSet)) or (isinstance(ca, GSet) and isinstance(cb, NSet))):
+            ns, gs = (ca, cb) if isinstance(ca, NSet) else (cb, ca)
+            if not [1 for e in gs.entries if e[0] is not False]:
+                return self.ctx.alloc(NSet(list(ns.bits)))      # union with a set that is empty on every path: a copy (exact)
         if isinstance(ca, PList) and isinstance(cb, PList) and isinstance(op, ast.Add):
             if inplace:
                 self.ctx.setcell(a, PList(ca.items + cb.items))
